@@ -192,8 +192,9 @@ class Spy:
         spy = self
 
         def zread(zs, name, *a, **k):
-            spy.events.append(("zip-read", getattr(name, "filename", name)))
-            return spy._zr(zs, name, *a, **k)
+            data = spy._zr(zs, name, *a, **k)
+            spy.events.append(("zip-read", getattr(name, "filename", name), len(data)))       # the entry a name resolves to need not be the entry that was size-checked
+            return data
 
         def textract(ts, member):
             size = getattr(member, "size", 0)
@@ -263,11 +264,15 @@ def build_archive(fmt: str, sizes: list[int], names: list[str] | None = None, la
     return buf.getvalue()
 
 
-def judge_member_limit(fmt: str, limit: int | None, sizes: list[int], layout: str = "per-file", links: list | None = None):
-    """limit None = default (10 MiB). Members are text files m<i>.txt of the given sizes."""
+def judge_member_limit(fmt: str, limit: int | None, sizes: list[int], layout: str = "per-file", links: list | None = None, same_name: list | None = None):
+    """limit None = default (10 MiB). Members are text files m<i>.txt of the given sizes; same_name[i] = j gives entry i the name of entry j (zip/tar: an updated archive)."""
     from sharepoint2text.parsing.extractors import archive_extractor as ax
     from sharepoint2text.parsing.extractors.archive_extractor import read_archive
-    raw = build_archive(fmt, sizes, layout=layout, links=links if fmt.startswith("tar") else None)
+    mnames = [f"m{i}.txt" for i in range(len(sizes))]
+    if same_name and fmt != "7z":
+        mnames = [mnames[same_name[i] % len(sizes)] if i < len(same_name) and same_name[i] is not None else n for i, n in enumerate(mnames)]
+    dup = len(set(mnames)) < len(mnames)
+    raw = build_archive(fmt, sizes, names=mnames, layout=layout, links=links if fmt.startswith("tar") else None)
     eff = 10 * MIB if limit is None else limit
     saved = ax._config
     fails = []
@@ -285,8 +290,15 @@ def judge_member_limit(fmt: str, limit: int | None, sizes: list[int], layout: st
         md = r.get_metadata()
         fn = getattr(md, "filename", "") or ""
         names[os.path.basename(fn.split("!/")[-1])] = len(r.get_full_text())
-    for i, s in enumerate(sizes):
-        n = f"m{i}.txt"
+    big_zip = [e for e in spy.events if e[0] == "zip-read" and len(e) > 2 and e[2] > eff]
+    if big_zip:
+        fails.append(("oversize-read", f"{fmt}: reading {big_zip[0][1]!r} delivered {big_zip[0][2]} bytes (limit {eff}); names={mnames} sizes={sizes}"))
+    if dup:
+        ok_n = sum(1 for s in sizes if s <= eff)
+        if len(val) > ok_n:
+            fails.append(("limit-not-enforced", f"{fmt}: {len(val)} results for {ok_n} members within the limit {eff}; names={mnames} sizes={sizes}"))
+    for i, s in enumerate(sizes if not dup else []):
+        n = mnames[i]
         over = s > eff
         if over and n in names:
             fails.append(("limit-not-enforced", f"{fmt}: member {n} of {s} bytes (limit {eff}) produced a result"))
@@ -352,6 +364,9 @@ def limits_fixed(ctx: Ctx):
     for fmt in ("zip", "tar", "tar.gz", "7z"):
         for delta in (-1, 0, 1):
             tasks.append((f"{fmt} member of 10 MiB {delta:+d}", judge_member_limit, (fmt, None, [100, 10 * MIB + delta, 50]), {"kind": "member-limit", "fmt": fmt, "limit": None, "sizes": [100, 10 * MIB + delta, 50], "layout": "per-file"}))
+    for fmt in ("zip", "tar"):
+        tasks.append((f"{fmt}: small member, then an oversize member of the same name", judge_member_limit, (fmt, None, [11, 10 * MIB + 1, 50], "per-file", None, [None, 0, None]),
+                      {"kind": "member-limit", "fmt": fmt, "limit": None, "sizes": [11, 10 * MIB + 1, 50], "layout": "per-file", "same_name": [None, 0, None]}))
     tasks.append(("read_file default limit, sparse file of 100 MB + 1", judge_read_file, (None, 100 * MIB + 1, "txt", True), {"kind": "read-file", "limit": None, "size": 100 * MIB + 1, "ext": "txt", "sparse": True}))
     tasks.append(("read_file limit 0 (disabled), sparse file of 100 MB + 1", judge_read_file, (0, 100 * MIB + 1, "txt", True), {"kind": "read-file", "limit": 0, "size": 100 * MIB + 1, "ext": "txt", "sparse": True}))
     mine = [t for i, t in enumerate(tasks) if i % ctx.nshards == ctx.shard]
@@ -379,7 +394,8 @@ def limits_random_shard(ctx: Ctx):
             return {"kind": kind, "limit": draw(st.sampled_from([L, L, L, 0])), "size": around(), "ext": draw(st.sampled_from(["txt", "md", "csv", "json", "html"])), "sparse": False}
         n = draw(st.integers(1, 4))
         return {"kind": kind, "fmt": draw(st.sampled_from(["zip", "tar", "tar.gz", "7z"])), "limit": L, "sizes": [around() for _ in range(n)],
-                "layout": draw(st.sampled_from(["per-file", "per-file", "solid", "mixed"])), "links": draw(st.lists(st.tuples(st.integers(0, 3), st.booleans()).map(list), max_size=2))}
+                "layout": draw(st.sampled_from(["per-file", "per-file", "solid", "mixed"])), "links": draw(st.lists(st.tuples(st.integers(0, 3), st.booleans()).map(list), max_size=2)),
+                "same_name": draw(st.one_of(st.none(), st.none(), st.lists(st.one_of(st.none(), st.integers(0, 3)), min_size=n, max_size=n)))}
 
     def ev(c):
         out = []
@@ -387,7 +403,7 @@ def limits_random_shard(ctx: Ctx):
             fails = judge_read_file(c["limit"], c["size"], c["ext"], c.get("sparse", False))
             near = c["limit"] > 0 and abs(c["size"] - c["limit"]) <= 1
         else:
-            fails = judge_member_limit(c["fmt"], c["limit"], c["sizes"], c.get("layout", "per-file"), c.get("links"))
+            fails = judge_member_limit(c["fmt"], c["limit"], c["sizes"], c.get("layout", "per-file"), c.get("links"), c.get("same_name"))
             near = any(abs(s - c["limit"]) <= 1 for s in c["sizes"])
         part.case(digest(c), near, sample=c if part.evaluations % 61 == 0 else None, limit=c["kind"], fmt=c.get("fmt", c.get("ext")))
         for cl, d in fails[:1]:
@@ -416,7 +432,7 @@ def replay(ctx: Ctx, payload: dict):
     if k == "read-file":
         fails = judge_read_file(payload["limit"], payload["size"], payload["ext"], payload.get("sparse", False))
     elif k == "member-limit":
-        fails = judge_member_limit(payload["fmt"], payload["limit"], payload["sizes"], payload.get("layout", "per-file"), payload.get("links"))
+        fails = judge_member_limit(payload["fmt"], payload["limit"], payload["sizes"], payload.get("layout", "per-file"), payload.get("links"), payload.get("same_name"))
     elif k == "7z-size":
         res = measured(_judge_7z_size, payload["delta"], cpu_limit_s=120)
         fails = res["out"][1] if res["out"][0] == "ok" else [("killed", str(res))]
